@@ -17,12 +17,10 @@ CONDS = {
     "check_sn": "spouses share a tax unit iff jointly assessed, for every row order",
     "check_bg": "needs unit = family unit minus self-sufficient children under 25 (each a singleton); bg within fg; ids do not collide; every row order",
     "check_wthh": "part-household = household x priority flag; within the household; ids of different households differ; every row order",
-    "check_fg_partner": "partners share a Familiengemeinschaft",
-    "check_fg_child": "a co-resident childless child under 25 without own partner shares the family unit of its co-resident parent(s) and their partner",
-    "check_fg_nopath": "persons without a pointer path never share a family unit; family unit within the household",
-    "check_fg_order": "the family-unit partition is the same for every row order",
 }
-TWINS = ["check_eg_twin", "check_sn_twin", "check_fg_twin"]
+# the Familiengemeinschaft conditions are decided by rulesym + z3 on the real fg_id_numpy (gsv.fgsym):
+# CrossHair finds their counterexamples but does not confirm them within budget even at N=3
+TWINS = ["check_eg_twin", "check_sn_twin"]
 
 
 def replay_cex(cond, cex, n):
@@ -54,6 +52,8 @@ def run(tier):
     n = 3 if tier == "quick" else 4
     timeout = 150 if tier == "quick" else 1500
     excl = GC.known_fg_classes(ck, "C12")
+    from gsv import fgsym
+    fgsym.run_obligations(ck, "C12", n, excl, with_orders=True, with_relabel=False, sep_na=None, timeout=300)
     res = GC.run_conditions(ck, "C12", n, list(CONDS), timeout, excl, TWINS)
     for cond, (verdict, cex, secs, tail) in sorted(res.items()):
         ck.obligations += 1
@@ -93,6 +93,11 @@ def replay(path):
     if d.get("kind") == "fg":
         bad, pi = GC.fg_order_dependent(d["w"])
         print("order dependent:", bad, pi)
+        return 1 if bad else 0
+    if d.get("kind") == "fgsym":
+        from gsv import fgsym
+        bad = fgsym.reproduces(d["name"], d["vals"], d["n"], d.get("sep_na"))
+        print("reproduces:", bad)
         return 1 if bad else 0
     cex = {(int(k) if k.isdigit() else k): v for k, v in d["cex"].items()}
     rep = replay_cex(d["cond"], cex, d["n"])
